@@ -15,6 +15,7 @@ across all configurations, and equal to the reference parse.
 from dsim import gen, pipe
 from dsim import refmodel as R
 from dsim.actors import read_all, block_knob_available, exc_summary
+from dsim.actors import STREAM_KINDS
 from dsim.world import World, apply_faults
 
 ID = 'C17'
@@ -67,7 +68,9 @@ def generate(rng, tier, cls):
         else:
             bs = 10 ** 6
 
-        kind = rng.weighted([(6, 'sim'), (1, 'bytesio'), (3, 'buffered')])
+        kind = rng.weighted([(12, 'sim'), (2, 'bytesio'), (6, 'buffered'),
+                             (1, 'minimal'), (1, 'gzip'), (1, 'mmap'),
+                             (1, 'spooled')])
         c = [pad, bs, kind,
              rng.choice([1, 2, 5, 64, 97, 8192]) if kind == 'buffered'
              else None,
@@ -225,7 +228,7 @@ def execute(scn, L):
         except (TypeError, ValueError, IndexError):
             continue
 
-        if pad < 0 or bs < 1 or kind not in ('sim', 'bytesio', 'buffered'):
+        if pad < 0 or bs < 1 or kind not in STREAM_KINDS:
             continue
 
         wk = World(scn, L)
